@@ -639,7 +639,7 @@ impl Decode<'_> for Constant {
             [1] => Ok(Constant::ByteString(Vec::<u8>::decode(d)?)),
             [2] => Ok(Constant::String(String::decode(d)?)),
             [3] => Ok(Constant::Unit),
-            [4] => Ok(Constant::Bool(bool::decode(d)?)),
+            [4] => Ok(Constant::Bool(d.bits8(1)? != 0)),
             [7, 5, rest @ ..] => {
                 let mut rest = VecDeque::from(rest.to_vec());
 
@@ -706,7 +706,7 @@ fn decode_constant_value(typ: Rc<Type>, d: &mut Decoder) -> Result<Constant, de:
         Type::ByteString => Ok(Constant::ByteString(Vec::<u8>::decode(d)?)),
         Type::String => Ok(Constant::String(String::decode(d)?)),
         Type::Unit => Ok(Constant::Unit),
-        Type::Bool => Ok(Constant::Bool(bool::decode(d)?)),
+        Type::Bool => Ok(Constant::Bool(d.bits8(1)? != 0)),
         Type::List(sub_type) => {
             let list: Vec<Constant> =
                 d.decode_list_with(|d| decode_constant_value(sub_type.clone(), d))?;
